@@ -42,6 +42,29 @@ EXHAUSTIVE = {'quick': False, 'thorough': False}
 NOTES = []
 
 
+KNOWN_MATCHES = 'matches: pairs on non-normalised image paths are lost on reload'
+
+
+def nonnormalised_matches_dataset(rng, i):
+    d = cc.gen_dataset(rng, present={'sensors', 'records_camera', 'keypoints'} | ({'trajectories'} if i % 2 else set()), size=2)
+    cam = next((s_[0] for s_ in d['sensors'] if s_[2] == 'camera'), None)
+    if cam is None:
+        d['sensors'].append(['cam', None, 'camera', ['UNKNOWN_CAMERA', '640', '480']])
+        cam = 'cam'
+    imgs = ['./cam0/0001.jpg', 'cam0//0002.jpg', 'seq/../cam0/0003.jpg', 'plain/4.jpg', 'plain/5.jpg']
+    d['records_camera'] = [[j, cam, im] for j, im in enumerate(imgs)]
+    for row in d['keypoints']:
+        row[-1] = sorted(x for x in imgs if rng.random() < 0.8)
+    allp = [[imgs[0], imgs[1]], [imgs[3], imgs[2]], [imgs[3], imgs[4]]]
+    pairs = (allp[i % 3:] + allp[:i % 3])[:2 + (i % 2)] + [[imgs[0], imgs[3]]][:i % 2]
+    d['matches'] = [['kp' if i % 2 else d['keypoints'][0][0], sorted(sorted(p_) for p_ in pairs)]]
+    return d
+
+
+def _has_nonnormalised_pairs(d):
+    return any(not cc.is_normalised(x) for kt, pairs in (d.get('matches') or []) for pr in pairs for x in pr)
+
+
 def gen_cases(rng, tier):
     cases = []
 
@@ -69,6 +92,51 @@ def gen_cases(rng, tier):
         for _ in range(2 if tier == 'quick' else 10):
             mk(cc.gen_dataset(rng, present={'sensors', 'rigs', 'trajectories', 'records_camera'}, size=3,
                               nested_rigs=True, rig_order=order))
+    # image paths that are not in normpath form (./a/b.jpg, a//b.jpg, x/../a/b.jpg) in records_camera, feature sets
+    # and observations; feature sub-directories that are symbolic links to directories
+    for i in range(4 if tier == 'quick' else 20):
+        d = cc.gen_dataset(rng, present={'sensors', 'records_camera', 'keypoints', 'descriptors', 'global_features',
+                                         'points3d', 'observations'}, size=5)
+        rows, seen = [], set()
+        for j, r in enumerate(d['records_camera']):
+            base = 'cam%d/%04d.jpg' % (j % 2, j)
+            r[2] = [base, './' + base, base.replace('/', '//'), 'seq/../' + base][(i + j) % 4]
+        imgs = [r[2] for r in d['records_camera']]
+        for part in cc.FEAT_PARTS:
+            for row in d[part] or []:
+                row[-1] = sorted(x for x in imgs if rng.random() < 0.8)
+        kps = [r for r in d['keypoints'] if r[-1]]
+        d['observations'] = [[n, kp[0], [[rng.choice(kp[-1]), rng.randint(0, 99)] for _ in range(2)]]
+                             for n, kp in enumerate(kps)]
+        cases.append({'kind': 'data', 'data': d, 'symlink_features': i % 2 == 1, '_origin': 'gen'})
+    # match pairs between images of every kind of name (netpbm / targa / no extension / names ending in the letters of
+    # '.matches', '.overlapping', '.kpt' ...): the pair names come back from file names
+    for i in range(2 if tier == 'quick' else 8):
+        d = cc.gen_dataset(rng, present={'sensors', 'records_camera', 'keypoints', 'descriptors'}, size=2)
+        cam = next((s_[0] for s_ in d['sensors'] if s_[2] == 'camera'), None)
+        if cam is None:
+            d['sensors'].append(['cam', None, 'camera', ['UNKNOWN_CAMERA', '640', '480']])
+            cam = 'cam'
+        names = ['a/0001.pgm', 'a/0002.ppm', 'b/frame_a', 'b/x.jpe', 'c/mesh.tga', 'c/scan_mesh', 'd/plain.jpg', 'd/e.matches',
+                 'e/f.overlapping', 'e/g.kpt', 'f/h.desc', 'f/dots...', 'g/t', 'g/s.h']
+        rng.shuffle(names)
+        names = names[:8 + 3 * i]
+        d['records_camera'] = [[j, cam, im] for j, im in enumerate(names)]
+        for part in ('keypoints', 'descriptors'):
+            for row in d[part]:
+                row[-1] = sorted(x for x in names if rng.random() < 0.8)
+        pairs = sorted({tuple(sorted(rng.sample(names, 2))) for _ in range(10)})
+        d['matches'] = [[d['keypoints'][0][0], [list(p_) for p_ in pairs]]]
+        mk(d)
+    # KNOWN FINDING: match pairs on image paths that are not in normpath form (lost on reload by the code as it is)
+    for i in range(3 if tier == 'quick' else 12):
+        mk(nonnormalised_matches_dataset(rng, i))
+    # large tables (a writer that works in blocks must not depend on the number of rows)
+    for nrows in ((1001,) if tier == 'quick' else (999, 1000, 1001, 2001)):
+        d = cc.gen_dataset(rng, present={'sensors'}, size=0)
+        d['sensors'] = [['c', None, 'camera', ['UNKNOWN_CAMERA', '640', '480']]]
+        d['records_camera'] = [[t, 'c', 'i/%d.jpg' % t] for t in range(nrows)]
+        mk(d)
     # two or three devices of the same kind recording at the same timestamps, for every records kind
     for p in [q for q in cc.TABLE_PARTS if q.startswith('records_')] + ['trajectories']:
         mk(cc.gen_dataset(rng, present={'sensors', p}, size=3, multi_device=True))
@@ -126,7 +194,7 @@ def run_impl(case, ctx):
         return {'steps': cc.run_history(case['steps'], ctx['tmp'], kv.case_hash(case['steps'])[:8])}
     if case['kind'] == 'mutate':
         return cc.run_data_case(case['data'], ctx['tmp'], mutations=case['mutations'])
-    return cc.run_data_case(case['data'], ctx['tmp'])
+    return cc.run_data_case(case['data'], ctx['tmp'], symlink_features=bool(case.get('symlink_features')))
 
 
 def _points_close(a, b):
@@ -175,6 +243,7 @@ def _oracle_data(d, obs):
     orig = cc.sort_plain(d)
     want_d = cc.canon_plain(d)
     got_d = obs['loaded']
+    known = None
     for part in cc.ALL_PARTS:
         x, y = orig[part], got_d[part]
         if (x is None) != (y is None):
@@ -186,6 +255,9 @@ def _oracle_data(d, obs):
                 return 'points3d: a coordinate moved by more than 1e-10'
             continue
         if want_d[part] != y:
+            if part == 'matches' and _only_nonnormalised_pairs_lost(want_d[part], y):
+                known = KNOWN_MATCHES         # reported only if nothing else is wrong (see the end)
+                continue
             return f'{part}: reloaded content differs from the saved content'
     if obs['resave_exc']:
         return 'saving the reloaded dataset raised ' + obs['resave_exc'].split(':')[0]
@@ -193,7 +265,20 @@ def _oracle_data(d, obs):
         bad = sorted(k for k in set(obs['files']) | set(obs['resave_files'])
                      if obs['files'].get(k) != obs['resave_files'].get(k))
         return 'saving the reloaded dataset is not byte-identical: ' + bad[0]
-    return None
+    return known
+
+
+def _only_nonnormalised_pairs_lost(want, got):
+    """the reloaded matches are the saved ones minus EXACTLY the pairs that have a non-normalised member (at least one)"""
+    if want is None or got is None or [kt for kt, _ in want] != [kt for kt, _ in got]:
+        return False
+    lost = 0
+    for (kt, wp), (_, gp) in zip(want, got):
+        keep = [p_ for p_ in wp if all(cc.is_normalised(x) for x in p_)]
+        if gp != keep:
+            return False
+        lost += len(wp) - len(keep)
+    return lost > 0
 
 
 def _data_steps(case, obs):
@@ -270,6 +355,8 @@ def shrink(case):
                 yield {'kind': 'mutate', 'data': case['data'], 'mutations': m[:i] + m[i + 1:]}
         return
     d = case['data']
+    if _has_nonnormalised_pairs(d):
+        return          # never shrink towards (or inside) the known finding: its signature is reserved for the exact pattern
     for p in cc.ALL_PARTS:
         if d[p] is not None and p != 'sensors':
             c = {k: v for k, v in d.items()}
@@ -278,17 +365,17 @@ def shrink(case):
                 continue
             if p == 'records_camera' and any(d[q] is not None for q in ('keypoints', 'descriptors', 'global_features', 'matches')):
                 continue
-            yield {'kind': 'data', 'data': c}
+            yield {'kind': 'data', 'data': c, 'symlink_features': bool(case.get('symlink_features'))}
     for p in cc.ALL_PARTS:
         v = d[p]
         if v and p not in ('points3d', 'sensors', 'records_camera', 'keypoints'):
             c = dict(d)
             c[p] = []
-            yield {'kind': 'data', 'data': c}
+            yield {'kind': 'data', 'data': c, 'symlink_features': bool(case.get('symlink_features'))}
     if d['points3d'] and d['points3d'][1]:
         c = dict(d)
         c['points3d'] = [d['points3d'][0], []]
-        yield {'kind': 'data', 'data': c}
+        yield {'kind': 'data', 'data': c, 'symlink_features': bool(case.get('symlink_features'))}
 
 
 TECHNIQUE = ('Coq proof of the codec round trip (one generic theorem on tables of typed columns instantiated for every file kind, '
